@@ -11,7 +11,7 @@ SYMS = list(LETTERS) + list(DIGITS) + ["_", ":"] + ODD
 SWEEP = ["a", "Z", "_", ":", "0", "-", "é", "Ａ", "٣"]
 
 CONST_POOL = ["a", "b", "c", "z", "job", "le", "A_1", "_x"]
-COMMON_POOL = ["a", "z", "job", "env", "le", "b"]
+COMMON_POOL = ["a", "z", "job", "env", "le", "b", "le", "le"]
 
 
 def rand_str(r, maxlen=4):
@@ -176,7 +176,7 @@ class C09(SeqProp):
                 labels = [(r.choice(COMMON_POOL) if r.random() < 0.8 else lname(r, 0.6), gens.label_value(r)) for _ in range(r.randint(0, 3))]
                 if labels and r.random() < 0.15: labels.append((labels[0][0], gens.label_value(r)))
             reg = s.emit("OpRegistry", prefix, labels)
-            reg_ok = (prefix is None or bool(_RE_M.match(prefix))) and all(_RE_L.match(k) for k, _ in (labels or []))
+            reg_ok = (prefix is None or bool(_RE_M.match(prefix))) and all(_RE_L.match(k) and k != "le" for k, _ in (labels or []))
             if reg_ok or r.random() < 0.2: regs.append(reg)
         metrics = []
         def keep(slot, ok):
@@ -243,6 +243,11 @@ class C09(SeqProp):
 
     # fixed scenarios: the recorded (repaired) defects and a few hand-picked shapes, always run first
     corpus = [
+        # the reserved-le defect (repaired): a registry-level common label called le must be refused; before the repair a
+        # histogram registered there was gathered with le among its labels (exposed as h_bucket{le="x",le="1"})
+        [("OpRegistry", None, [("le", "x")]), ("OpHistogram", dict(opts=mkopts("h", "h"), buckets=[f64(1.0)])), ("OpObserve", 1, f64(0.5)),
+         ("OpRegister", 0, 1), ("OpGather", 0), ("OpRegistry", "p", [("a", "1"), ("le", "2")]), ("OpHistVec", dict(opts=mkopts("hv", "h"), buckets=[]), ["k"]),
+         ("OpWith", 3, ["v"]), ("OpObserve", 4, f64(2.0)), ("OpRegister", 2, 3), ("OpGather", 2)],
         [("OpCounterVec", "NF", mkopts("c", "h", consts=[("a", "1")]), ["a"]),
          ("OpDesc", "c", "h", ["a"], [("a", "1")]), ("OpDesc", "c", "h", ["a", "a"], []), ("OpDesc", "c", "h", ["b"], [("a", "1"), ("a", "2")])],
         [("OpHistVec", dict(opts=mkopts("h", "h"), buckets=[]), ["le"]),
